@@ -100,6 +100,8 @@ class Inliner:
         node.body = self._block(node.body, unit, (unit.fq,), 0, changed)
         if _unalias_fields(node, unit):
             changed[0] = True
+        if _inline_properties(node, self.pkg):
+            changed[0] = True
         if not changed[0]:
             return unit
         ast.fix_missing_locations(node)
@@ -561,6 +563,65 @@ def _inline_return(at: ast.AST) -> ast.Break:
     return b
 
 
+def _simple_properties(pkg) -> Dict[str, Tuple[str, ast.AST]]:
+    """attribute name -> (name of self, returned expression) for the read-only properties of private library classes
+    whose body is one ``return <expression>`` without calls, awaits or walruses, where the attribute name means nothing
+    else in the package (no second class defines it, nothing stores to it)."""
+    cached = pkg.__dict__.get("_simple_props")
+    if cached is not None:
+        return cached
+    found: Dict[str, List[Tuple[str, ast.AST]]] = {}
+    other: Set[str] = set()
+    for m in pkg.modules.values():
+        for x in ast.walk(m.tree):
+            if isinstance(x, ast.Attribute) and isinstance(x.ctx, (ast.Store, ast.Del)):
+                other.add(x.attr)
+        for info in m.classes.values():
+            for st in info.node.body:
+                if isinstance(st, (ast.FunctionDef, ast.AsyncFunctionDef)):
+                    decos = [ast.unparse(d).split(".")[-1] for d in st.decorator_list]
+                    body = [b for b in st.body if not (isinstance(b, ast.Expr) and isinstance(b.value, ast.Constant))]
+                    if decos == ["property"] and isinstance(st, ast.FunctionDef) and info.name.startswith("_") \
+                            and len(body) == 1 and isinstance(body[0], ast.Return) \
+                            and body[0].value is not None and len(st.args.args) == 1 \
+                            and not any(isinstance(y, (ast.Call, ast.Await, ast.NamedExpr, ast.Yield, ast.Lambda)) for y in ast.walk(body[0].value)):
+                        found.setdefault(st.name, []).append((st.args.args[0].arg, body[0].value))
+                    else:
+                        other.add(st.name)
+                elif isinstance(st, (ast.Assign, ast.AnnAssign)):
+                    for t in (st.targets if isinstance(st, ast.Assign) else [st.target]):
+                        if isinstance(t, ast.Name):
+                            other.add(t.id)
+            other.update(info.slots or [])
+    out = {k: v[0] for k, v in found.items() if len(v) == 1 and k not in other}
+    pkg.__dict__["_simple_props"] = out
+    return out
+
+
+def _inline_properties(node: ast.AST, pkg) -> bool:
+    """``state.has_value`` -> the expression the property returns, with ``self`` replaced by ``state`` (a plain name or
+    attribute chain, so evaluating it more than once changes nothing)."""
+    props = _simple_properties(pkg)
+    if not props:
+        return False
+    changed = [False]
+
+    def plain(e: ast.AST) -> bool:
+        return isinstance(e, ast.Name) or (isinstance(e, ast.Attribute) and plain(e.value))
+
+    class T(ast.NodeTransformer):
+        def visit_Attribute(self, a: ast.Attribute):
+            self.generic_visit(a)
+            if isinstance(a.ctx, ast.Load) and a.attr in props and plain(a.value):
+                me, expr = props[a.attr]
+                new = _Rename({}, {me: a.value}).visit(copy.deepcopy(expr))
+                changed[0] = True
+                return ast.copy_location(new, a)
+            return a
+    T().visit(node)
+    return changed[0]
+
+
 def _unalias_fields(node: ast.AST, unit: Unit) -> bool:
     """``cache = self._cache`` ... ``cache[key]``: a local that is bound once, to a field of ``self`` that no method but
     ``__init__`` ever re-binds, is the field under another name; its loads are replaced by the field expression so that
@@ -605,7 +666,8 @@ def _unalias_fields(node: ast.AST, unit: Unit) -> bool:
         if name in params or len(stores.get(name, [])) != 1:
             continue
         if isinstance(val, ast.Attribute) and isinstance(val.value, ast.Name) and val.value.id == me \
-                and len(stores.get(me, [])) == 0 and not rebound_elsewhere(val.attr):
+                and len(stores.get(me, [])) == 0 and not rebound_elsewhere(val.attr) \
+                and val.attr not in unit.cls.methods:  # (a property is computed at every read: no alias of a field)
             aliases[name] = val
     if not aliases:
         return False
